@@ -27,9 +27,20 @@ Fixpoint dedup (l : list str) (seen : list str) : list str :=
 Definition declared_names (kinds : list term) : list str :=
   dedup (flat_map (fun k => match kname k with Some n => [n] | None => [] end) kinds) [].
 
+(* A parameter named like an array element, `a(1)`, is an ordinary local whose name is that whole
+   string (the binder never splits names); no command of the language can read it back, since every
+   reader splits `a(1)` into array and index.  The body does not report such parameters with `set`:
+   it reports the number of locals instead, which counts them. *)
+Definition elem_like (n : str) : bool :=
+  existsb (N.eqb 40) n && match rev n with c :: _ => N.eqb c 41 | [] => false end.
+Definition reported_names (kinds : list term) : list str :=
+  filter (fun n => negb (elem_like n)) (declared_names kinds).
+Definition has_elem_like (kinds : list term) : bool := existsb elem_like (declared_names kinds).
+
 Definition c10_body (kinds : list term) : str :=
   concat_str (map (fun n => let q := list_to_string [n] in
-                            lit "rec " ++ q ++ lit " [set " ++ q ++ lit "]" ++ [c_nl]) (declared_names kinds))
+                            lit "rec " ++ q ++ lit " [set " ++ q ++ lit "]" ++ [c_nl]) (reported_names kinds))
+  ++ (if has_elem_like kinds then lit "rec locals [llength [info locals]]" ++ [c_nl] else [])
   ++ lit "return done".
 
 Definition evs (st : interp) (s : str) := eval std_uni model_fuel st s.
@@ -153,7 +164,10 @@ Definition c10_spec_ok (c obs : term) : bool :=
              | Some b =>
                  ok_with rcall (lit "done")
                  && term_eqb (TList calls)
-                      (TList (map (fun n => TStrs [lit "rec"; n; last_binding b n]) (declared_names kinds)))
+                      (TList (map (fun n => TStrs [lit "rec"; n; last_binding b n]) (reported_names kinds)
+                              ++ (if has_elem_like kinds
+                                  then [TStrs [lit "rec"; lit "locals"; show_Z (Z.of_nat (length (declared_names kinds)))]]
+                                  else [])))
              | None =>
                  (* rejected before the body runs, with the call signature in the message *)
                  err_with rcall (lit "wrong # args: should be ""p" ++ signature kinds ++ lit """")
